@@ -380,7 +380,9 @@ func c14Results(e *env) {
 		"h": {"proxy.example", "", ""}, ":1": {":1", "", "1"}, "h:": {"proxy.example:", "proxy.example", ""},
 		"h:+1": {"proxy.example:+1", "", ""}, "h:99999": {"proxy.example:99999", "", ""}, "h:1 x": {"proxy.example:1 x", "", ""},
 		"h:1/": {"proxy.example:1/", "", ""}, "_h:1": {" proxy.example:1", "proxy.example", "1"}, "h:1?": {"proxy.example:1", "proxy.example", "1"},
+		"T:h:1": {"proxy.example:1", "proxy.example", "1"}, "T_h:1": {" proxy.example:1", "proxy.example", "1"},
 	}
+	lenientTok := map[string]bool{"_h:1": true, "T:h:1": true, "T_h:1": true}
 	modes := map[string]pac.Mode{"direct": pac.DIRECT, "http": pac.HTTP, "https": pac.HTTPS, "socks": pac.SOCKS, "socks4": pac.SOCKS4, "socks5": pac.SOCKS5}
 	e.eachCase(func(raw json.RawMessage) {
 		var c struct {
@@ -401,9 +403,13 @@ func c14Results(e *env) {
 		for _, en := range c.Res {
 			s := en.Lead + en.Kw
 			if en.Hp != "none" {
-				s += " " + tok[en.Hp][0]
+				sep := " "
+				if strings.HasPrefix(en.Hp, "T") {
+					sep = "\t" // a tab where the blank would be
+				}
+				s += sep + tok[en.Hp][0]
 			}
-			if en.Hp == "_h:1" {
+			if lenientTok[en.Hp] {
 				lenient = true // a second blank: mapping to the host:port or rejection, both are fine
 			}
 			parts = append(parts, s+en.Trail)
@@ -455,7 +461,7 @@ func c14Results(e *env) {
 		}
 		first, ferr := ps.First()
 		switch {
-		case c.All[0].Ok && ferr != nil && c.Res[0].Hp == "_h:1":
+		case c.All[0].Ok && ferr != nil && lenientTok[c.Res[0].Hp]:
 			// rejected because of the second blank: fine
 		case c.All[0].Ok && ferr != nil:
 			fail("First(): well-formed first entry rejected: " + ferr.Error())
